@@ -223,8 +223,8 @@ def run_unit(unit, repo, workdir, canary=True):
                     off = len(ctext.encode()[:sp["byte_start"]].decode(errors="replace"))
                     it = item_for_offset(crep, off)
                     if it is not None and ctext.encode()[sp["byte_start"]:sp["byte_end"]].decode(errors="replace").strip() == "false":
-                        hit.add(it.get("gen_name") or it["name"])
-        missing = [it.get("gen_name") or it["name"] for it in want if (it.get("gen_name") or it["name"]) not in hit]
+                        hit.add(tuple(it["gen_span"]))
+        missing = [it.get("gen_name") or it["name"] for it in want if tuple(it["gen_span"]) not in hit]
         res["canary"] = f"{len(hit)}/{len(want)} injected assert(false) fail as they must"
         if missing:
             res["notes"].append("VACUOUS: assert(false) after the preconditions was NOT refuted in: " + ", ".join(missing))
